@@ -49,6 +49,9 @@ pub enum KOp {
     /// like More, but the `err_at`-th intermediate reply carries an `error` member *and*
     /// `continues: true`: an error item in the middle of a stream that goes on
     MoreErr { conts: u8, err_at: u8, fin: RSpec, nexts: u8 },
+    /// more(), one next(), then a second send on the *same* call object while it is still iterating
+    /// (refused), then a new call (busy), then the iteration is continued to its end
+    MoreResend { conts: u8, fin: RSpec },
 }
 
 #[derive(Clone, Debug, Serialize, Deserialize, PartialEq)]
@@ -205,6 +208,7 @@ pub struct KObs {
     pub reply_bytes: usize,
     pub cli_short_reads: u64,
     pub cli_read_eintr: u64,
+    pub cli_read_timeouts: u64,
     pub busy_seen: u64,
     pub eof_fired: bool,
     pub max_in_buffer_frames: usize,
@@ -259,12 +263,18 @@ fn run_task(net: NetRef, conn: Arc<shuttle::sync::RwLock<Connection>>, task: usi
                 };
                 rec(OpRec { task, op: oi, what: "oneway", item: 0, token: token.clone(), inv, ret, outcome });
             }
-            KOp::More { .. } | KOp::MoreErr { .. } => {
+            KOp::More { .. } | KOp::MoreErr { .. } | KOp::MoreResend { .. } => {
+                let resend_nexts: u8;
                 let (conts, fin, nexts, nested, err_at) = match op {
                     KOp::More { conts, fin, nexts, nested } => (conts, fin, nexts, nested, None),
                     KOp::MoreErr { conts, err_at, fin, nexts } => (conts, fin, nexts, &false, Some(*err_at)),
+                    KOp::MoreResend { conts, fin } => {
+                        resend_nexts = *conts + 2;
+                        (conts, fin, &resend_nexts, &true, None)
+                    }
                     _ => unreachable!(),
                 };
+                let resend_mid = matches!(op, KOp::MoreResend { .. });
                 let mut mc = new_call(&token, json!({"conts": conts, "final": spec_json(fin), "err_at": err_at}));
                 let inv = net.stamp(format!("inv {} more", token));
                 let started = mc.more().map(|_| ());
@@ -287,6 +297,12 @@ fn run_task(net: NetRef, conn: Arc<shuttle::sync::RwLock<Connection>>, task: usi
                     continue;
                 }
                 for j in 0..*nexts as usize {
+                    if resend_mid && j == 1 {
+                        let inv = net.stamp(format!("inv {} resend", token));
+                        let r = mc.call();
+                        let ret = net.stamp(format!("ret {} resend", token));
+                        rec(OpRec { task, op: oi, what: "resend", item: j, token: token.clone(), inv, ret, outcome: outcome_of(&r) });
+                    }
                     if *nested && j == 1 {
                         let ntok = format!("{}-n", token);
                         let mut inner = new_call(&ntok, json!({"final": spec_json(&RSpec::Ok)}));
@@ -499,6 +515,7 @@ pub fn run_k(case: &KCase) -> (SimEnd, crate::sched::SimStats, KObs) {
         o.reply_bytes = pushed;
         o.cli_short_reads = w.cnt.cli_short_reads;
         o.cli_read_eintr = w.cnt.cli_read_eintr;
+        o.cli_read_timeouts = w.cnt.cli_read_timeout;
         o.eof_fired = closed && c.eof_after.is_some();
         o.max_in_buffer_frames = max_frames;
     });
@@ -537,7 +554,7 @@ pub fn judge_k(case: &KCase, end: &SimEnd, o: &KObs) -> (Vec<Violation>, bool) {
             "client threads were blocked with nothing in flight: no request at the server, no reply owed".into(),
         ));
     }
-    let faulty = case.eof_after.is_some();
+    let faulty = case.eof_after.is_some() || case.cli_read_plan.contains(&u16::MAX);
     // per task, walk the script and compare
     for (t, ops) in case.tasks.iter().enumerate() {
         let recs: Vec<&OpRec> = o.ops.iter().filter(|r| r.task == t).collect();
@@ -634,12 +651,28 @@ pub fn judge_k(case: &KCase, end: &SimEnd, o: &KObs) -> (Vec<Violation>, bool) {
                         v.push(viol("C04", "client-oneway", format!("{} oneway() returned Ok but nothing reached the server", token)));
                     }
                 }
-                KOp::More { .. } | KOp::MoreErr { .. } => {
+                KOp::More { .. } | KOp::MoreErr { .. } | KOp::MoreResend { .. } => {
+                    let resend_nexts: u8;
                     let (conts, fin, nexts, nested, err_at) = match op {
                         KOp::More { conts, fin, nexts, nested } => (conts, fin, nexts, nested, None),
                         KOp::MoreErr { conts, err_at, fin, nexts } => (conts, fin, nexts, &false, Some(*err_at as usize)),
+                        KOp::MoreResend { conts, fin } => {
+                            resend_nexts = *conts + 2;
+                            (conts, fin, &resend_nexts, &true, None)
+                        }
                         _ => unreachable!(),
                     };
+                    if let KOp::MoreResend { .. } = op {
+                        if let Some(r2) = mine.iter().find(|r| r.what == "resend") {
+                            if r2.outcome != "E:CalledAlready" && !faulty {
+                                v.push(viol(
+                                    "C07",
+                                    "second-send",
+                                    format!("{}: a second send on a call object that is still iterating returned {} instead of MethodCalledAlready", token, r2.outcome),
+                                ));
+                            }
+                        }
+                    }
                     if main.outcome != "Ok" {
                         if !(faulty && conn_level(&main.outcome)) {
                             v.push(viol("C05", "client-more-start", format!("{} more() returned {}", token, main.outcome)));
@@ -777,6 +810,7 @@ pub fn eval_k(case: &KCase) -> RunResult {
             ("client_short_read", o.cli_short_reads),
             ("client_read_eintr", o.cli_read_eintr),
             ("server_closed_mid_stream", o.eof_fired as u64),
+            ("client_receive_timeout", o.cli_read_timeouts),
         ],
         probes: vec![
             ("connection_busy_returned", o.busy_seen),
@@ -899,6 +933,7 @@ fn op_alphabet() -> Vec<KOp> {
         KOp::More { conts: 2, fin: RSpec::Err { name: 4, params: 1 }, nexts: 4, nested: true },
         KOp::More { conts: 1, fin: RSpec::Ok, nexts: 3, nested: true },
         KOp::MoreErr { conts: 2, err_at: 0, fin: RSpec::Ok, nexts: 4 },
+        KOp::MoreResend { conts: 2, fin: RSpec::Ok },
     ]
 }
 
@@ -908,6 +943,7 @@ fn random_op(rng: &mut Rng, specs: &[RSpec], allow_abandon: bool) -> KOp {
         3 => KOp::CallTyped(rng.pick(specs).clone()),
         4 | 5 => KOp::Oneway,
         6 => KOp::Resend(rng.pick(specs).clone()),
+        7 if rng.chance(1, 2) => KOp::MoreResend { conts: rng.range(1, 5) as u8, fin: rng.pick(specs).clone() },
         7 => {
             let conts = rng.range(1, 6) as u8;
             KOp::MoreErr {
@@ -1047,8 +1083,19 @@ pub fn c07_plan(tier: Tier) -> Plan {
                     .collect();
                 let mut c = base_case(tasks, SchedCfg::random(&mut rng, 1));
                 io_plans(&mut rng, &mut c, true);
-                if rng.chance(1, 2) {
-                    c.eof_after = Some(rng.range(0, 300) as usize);
+                match rng.below(3) {
+                    0 => c.eof_after = Some(rng.range(0, 300) as usize),
+                    1 => {
+                        // a receive timeout set on the socket fires once or twice while a reply is awaited
+                        if c.cli_read_plan.is_empty() {
+                            c.cli_read_plan = (0..rng.range(2, 20)).map(|_| rng.range(1, 40) as u16).collect();
+                        }
+                        for _ in 0..rng.range(1, 2) {
+                            let p = rng.usize(c.cli_read_plan.len());
+                            c.cli_read_plan[p] = u16::MAX;
+                        }
+                    }
+                    _ => {}
                 }
                 Case::K(c)
             }),
@@ -1056,7 +1103,7 @@ pub fn c07_plan(tier: Tier) -> Plan {
     }
     Plan {
         spaces,
-        rule: "K1: the real client against a scripted server on a simulated socket pair. (a) every reply object (with/without error; the four standard error names and a custom one, each with proper / absent / ill-typed / foreign parameters) plus results without parameters and with ill-typed parameters — through call() with a Value reply type, through call() with a typed reply struct, and as the final reply of a more() iteration; (b) one thread, every operation sequence over an 11-operation alphabet {call ok/std error/custom error, a call with a typed reply struct answered with parameters that do not decode, oneway, second send on the same object, more with 0..2 continues replies ending in a result or an error, an error item carrying continues:true in mid-stream, new call while iterating} up to length 3 (quick) / 4 (thorough), complete; (c) 2..8 threads sharing one Arc<RwLock<Connection>>, 1..6 random operations each, under seeded schedules, with client short reads / short writes, replies released in random chunks, sometimes before quiescence; (d) the same with EINTR on client reads and the server closing in mid-stream (outcomes relaxed to: expected result or a connection-level error, never wrong data). Oracles: bytes at the server are whole requests, at most one non-oneway request in flight, a refused call leaves no bytes, every result carries its own token and the mapped error kind, ConnectionBusy only when another call's ownership interval (event sequence numbers) overlaps the attempt, second send = MethodCalledAlready, no hang. Distinct = (case, hash of the context-switch sequence).".into(),
+        rule: "K1: the real client against a scripted server on a simulated socket pair. (a) every reply object (with/without error; the four standard error names and a custom one, each with proper / absent / ill-typed / foreign parameters) plus results without parameters and with ill-typed parameters — through call() with a Value reply type, through call() with a typed reply struct, and as the final reply of a more() iteration; (b) one thread, every operation sequence over an 11-operation alphabet {call ok/std error/custom error, a call with a typed reply struct answered with parameters that do not decode, oneway, second send on the same object, more with 0..2 continues replies ending in a result or an error, an error item carrying continues:true in mid-stream, a second send on a call object that is still iterating, new call while iterating} up to length 3 (quick) / 4 (thorough), complete; (c) 2..8 threads sharing one Arc<RwLock<Connection>>, 1..6 random operations each, under seeded schedules, with client short reads / short writes, replies released in random chunks, sometimes before quiescence; (d) the same with EINTR on client reads, a receive timeout (transient EAGAIN) firing while a reply is awaited, and the server closing in mid-stream (outcomes relaxed to: expected result or a connection-level error, never wrong data). Oracles: bytes at the server are whole requests, at most one non-oneway request in flight, a refused call leaves no bytes, every result carries its own token and the mapped error kind, ConnectionBusy only when another call's ownership interval (event sequence numbers) overlaps the attempt, second send = MethodCalledAlready, no hang. Distinct = (case, hash of the context-switch sequence).".into(),
         level: "exploration",
         real: REAL_K.to_vec(),
         stub: STUB_K.to_vec(),
